@@ -42,6 +42,11 @@ theorem table_holds (x : Ext) (op : ExpOp) (st : St) (v w : Str) (hv : v ≠ [])
 /-- `name` is an ordinary parameter (not `@` or `*`). -/
 def Plain (name : Str) : Prop := name ≠ ['@'] ∧ name ≠ ['*']
 
+instance (n : Str) : Decidable (Plain n) := by unfold Plain; exact inferInstance
+
+instance (b : Bool) (s u r : Str) : Decidable (Spec.Removes b s u r) := by
+  unfold Spec.Removes; cases b <;> exact inferInstance
+
 theorem effIdx_plain {pe : PE} (h : Plain pe.name) : effIdx pe = pe.idx := by
   unfold effIdx; simp [h.1, h.2]
 
@@ -590,5 +595,404 @@ theorem removeWith_spec (m : Str → Bool) (s : Str) (fromEnd shortest : Bool)
       obtain ⟨e1, _, e3⟩ := suffix_eq_drop h1
       have := findrev_range'_none _ _ _ h (s.length - u'.length) (Nat.zero_le _) (by omega)
       rw [e1]; exact this
+
+/-! ## replacement -/
+
+theorem findSome_range'_some {α : Type} (f : Nat → Option α) (lo n : Nat) (v : α)
+    (h : (List.range' lo n).findSome? f = some v) :
+    ∃ i, lo ≤ i ∧ i < lo + n ∧ f i = some v ∧ ∀ j, lo ≤ j → j < i → f j = none := by
+  induction n generalizing lo with
+  | zero => simp at h
+  | succ n ih =>
+    rw [List.range'_succ, List.findSome?_cons] at h
+    cases hf : f lo with
+    | some v' =>
+      rw [hf] at h; cases h
+      exact ⟨lo, Nat.le_refl _, by omega, hf, fun j h1 h2 => by omega⟩
+    | none =>
+      rw [hf] at h
+      obtain ⟨i, a, b, c, d⟩ := ih (lo + 1) h
+      refine ⟨i, by omega, by omega, c, fun j h1 h2 => ?_⟩
+      by_cases hj : j = lo
+      · subst hj; exact hf
+      · exact d j (by omega) h2
+
+theorem findSome_range'_none {α : Type} (f : Nat → Option α) (lo n : Nat)
+    (h : (List.range' lo n).findSome? f = none) : ∀ j, lo ≤ j → j < lo + n → f j = none := by
+  intro j h1 h2
+  rw [List.findSome?_eq_none_iff] at h
+  exact h j (by rw [List.mem_range'_1]; omega)
+
+/-- No non-empty prefix of `t` matches. -/
+def NoMatchAt (m : Str → Bool) (t : Str) : Prop := ∀ k, 1 ≤ k → k ≤ t.length → m (t.take k) = false
+
+/-- The longest non-empty prefix of `t` that matches has length `k`. -/
+def LongestAt (m : Str → Bool) (t : Str) (k : Nat) : Prop :=
+  1 ≤ k ∧ k ≤ t.length ∧ m (t.take k) = true ∧ ∀ k', k < k' → k' ≤ t.length → m (t.take k') = false
+
+/-- `${s//pat/w}` as a relation: scan left to right; where no non-empty prefix of the rest
+    matches, copy one character; otherwise replace the longest matching prefix and go on behind it. -/
+inductive ReplAll (m : Str → Bool) (w : Str) : Str → Str → Prop
+  | nil : ReplAll m w [] []
+  | skip (c : Char) (cs r : Str) : NoMatchAt m (c :: cs) → ReplAll m w cs r → ReplAll m w (c :: cs) (c :: r)
+  | hit (t : Str) (k : Nat) (r : Str) : LongestAt m t k → ReplAll m w (t.drop k) r → ReplAll m w t (w ++ r)
+
+/-- `${s/pat/w}` as a relation: the first position with a match, the longest match there. -/
+def ReplFirst (m : Str → Bool) (w : Str) (t r : Str) : Prop :=
+  ((∀ i, i ≤ t.length → NoMatchAt m (t.drop i)) ∧ r = t) ∨
+  ∃ a k, (∀ i, i < a → NoMatchAt m (t.drop i)) ∧ LongestAt m (t.drop a) k ∧ r = t.take a ++ w ++ t.drop (a + k)
+
+theorem sub_eq (s : Str) (i j : Nat) : sub s i j = (s.drop i).take (j - i) := rfl
+
+theorem inner_none (m : Str → Bool) (s : Str) (i : Nat)
+    (h : (upTo i s.length).reverse.find? (fun j => m (sub s i j)) = none) : NoMatchAt m (s.drop i) := by
+  intro k h1 h2
+  simp only [List.length_drop] at h2
+  have := findrev_range'_none _ _ _ h (i + k) (by omega) (by omega)
+  simpa [sub_eq] using this
+
+theorem inner_some (m : Str → Bool) (s : Str) (i j : Nat) (hne : m [] = false)
+    (h : (upTo i s.length).reverse.find? (fun j => m (sub s i j)) = some j) :
+    i < j ∧ j ≤ s.length ∧ LongestAt m (s.drop i) (j - i) := by
+  obtain ⟨a, b, c, d⟩ := findrev_range'_some _ _ _ _ h
+  have hij : i ≠ j := by
+    intro e; subst e
+    simp [sub_eq, hne] at c
+  refine ⟨by omega, by omega, by omega, by simp only [List.length_drop]; omega, by simpa [sub_eq] using c, ?_⟩
+  intro k' h1 h2
+  simp only [List.length_drop] at h2
+  have := d (i + k') (by omega) (by omega)
+  simpa [sub_eq] using this
+
+theorem findFrom_none (m : Str → Bool) (s : Str) (pos : Nat) (h : findFrom m s pos = none) :
+    ∀ i, pos ≤ i → i ≤ s.length → NoMatchAt m (s.drop i) := by
+  intro i h1 h2
+  unfold findFrom upTo at h
+  have := findSome_range'_none _ _ _ h i h1 (by omega)
+  simp only [Option.map_eq_none_iff] at this
+  exact inner_none m s i this
+
+theorem findFrom_some (m : Str → Bool) (s : Str) (pos a b : Nat) (hne : m [] = false)
+    (h : findFrom m s pos = some (a, b)) :
+    pos ≤ a ∧ a < b ∧ b ≤ s.length ∧ (∀ i, pos ≤ i → i < a → NoMatchAt m (s.drop i)) ∧
+      LongestAt m (s.drop a) (b - a) := by
+  unfold findFrom upTo at h
+  obtain ⟨i, h1, h2, h3, h4⟩ := findSome_range'_some _ _ _ _ h
+  simp only [Option.map_eq_some_iff, Prod.mk.injEq] at h3
+  obtain ⟨j, hj, rfl, rfl⟩ := h3
+  obtain ⟨e1, e2, e3⟩ := inner_some m s i j hne hj
+  refine ⟨h1, e1, e2, fun i' g1 g2 => ?_, e3⟩
+  have := h4 i' g1 g2
+  simp only [Option.map_eq_none_iff] at this
+  exact inner_none m s i' this
+
+theorem replAll_nomatch (m : Str → Bool) (w t : Str)
+    (h : ∀ i, i ≤ t.length → NoMatchAt m (t.drop i)) : ReplAll m w t t := by
+  induction t with
+  | nil => exact .nil
+  | cons c cs ih =>
+    refine .skip c cs cs (by simpa using h 0 (Nat.zero_le _)) (ih fun i hi => ?_)
+    simpa using h (i + 1) (by simp; omega)
+
+/-- copying a gap: no match starts in the first `g` positions -/
+theorem replAll_gap (m : Str → Bool) (w t r : Str) (g : Nat) (hg : g ≤ t.length)
+    (h : ∀ i, i < g → NoMatchAt m (t.drop i)) (hr : ReplAll m w (t.drop g) r) :
+    ReplAll m w t (t.take g ++ r) := by
+  induction g generalizing t with
+  | zero => simpa using hr
+  | succ g ih =>
+    cases t with
+    | nil => simp at hg
+    | cons c cs =>
+      simp only [List.take_succ_cons, List.cons_append]
+      refine .skip c cs _ (by simpa using h 0 (by omega)) ?_
+      refine ih cs (by simpa using hg) (fun i hi => ?_) (by simpa using hr)
+      simpa using h (i + 1) (by omega)
+
+theorem spliceLocs_nil (s w : Str) (last : Nat) : spliceLocs s w last [] = s.drop last := rfl
+
+theorem drop_sub (s : Str) (pos a : Nat) (_h : pos ≤ a) : sub s pos a = (s.drop pos).take (a - pos) := rfl
+
+/-- The loop of `allMatches` in "all" mode, from position `pos`. -/
+theorem allMatches_replAll (m : Str → Bool) (s w : Str) (hne : m [] = false) :
+    ∀ (fuel pos cnt : Nat) (prev : Option Nat), pos ≤ s.length → s.length - pos + 1 ≤ fuel → cnt ≤ pos →
+      ReplAll m w (s.drop pos) (spliceLocs s w pos (allMatches m s (s.length + 1) fuel pos cnt prev)) := by
+  intro fuel
+  induction fuel with
+  | zero => intro pos cnt prev h1 h2; omega
+  | succ fuel ih =>
+    intro pos cnt prev h1 h2 h3
+    unfold allMatches
+    have hc : (decide (cnt < s.length + 1) && decide (pos ≤ s.length)) = true := by
+      simp; omega
+    simp only [hc, if_true]
+    cases hf : findFrom m s pos with
+    | none =>
+      simp only [spliceLocs_nil]
+      apply replAll_nomatch
+      intro i hi
+      simp only [List.length_drop] at hi
+      have := findFrom_none m s pos hf (pos + i) (by omega) (by omega)
+      simpa [List.drop_drop, Nat.add_comm] using this
+    | some ab =>
+      obtain ⟨a, b⟩ := ab
+      obtain ⟨g1, g2, g3, g4, g5⟩ := findFrom_some m s pos a b hne hf
+      have hbp : (b == pos) = false := by simp; omega
+      simp only [hbp, Bool.false_eq_true, if_false, spliceLocs]
+      have ihb := ih b (cnt + 1) (some b) g3 (by omega) (by omega)
+      rw [drop_sub s pos a g1, List.append_assoc]
+      apply replAll_gap m w (s.drop pos) _ (a - pos) (by simp only [List.length_drop]; omega)
+      · intro i hi
+        have := g4 (pos + i) (by omega) (by omega)
+        simpa [List.drop_drop, Nat.add_comm] using this
+      · have e1 : (s.drop pos).drop (a - pos) = s.drop a := by
+          rw [List.drop_drop]; congr 1; omega
+        rw [e1]
+        refine .hit (s.drop a) (b - a) _ g5 ?_
+        have e2 : (s.drop a).drop (b - a) = s.drop b := by
+          rw [List.drop_drop]; congr 1; omega
+        rw [e2]; exact ihb
+
+theorem findAll_replAll (m : Str → Bool) (s w : Str) (hne : m [] = false) :
+    ReplAll m w s (spliceLocs s w 0 (findAll m s true)) := by
+  have := allMatches_replAll m s w hne (s.length + 2) 0 0 none (Nat.zero_le _) (by omega) (Nat.le_refl _)
+  simpa [findAll] using this
+
+theorem findAll_replFirst (m : Str → Bool) (s w : Str) (hne : m [] = false) :
+    ReplFirst m w s (spliceLocs s w 0 (findAll m s false)) := by
+  unfold findAll
+  simp only [Bool.false_eq_true, if_false]
+  unfold allMatches
+  simp only [Nat.lt_one_iff, decide_true, Nat.zero_le, Bool.and_self, if_true]
+  cases hf : findFrom m s 0 with
+  | none =>
+    left
+    exact ⟨fun i hi => findFrom_none m s 0 hf i (Nat.zero_le _) hi, rfl⟩
+  | some ab =>
+    obtain ⟨a, b⟩ := ab
+    obtain ⟨g1, g2, g3, g4, g5⟩ := findFrom_some m s 0 a b hne hf
+    have hbp : (b == 0) = false := by simp; omega
+    right
+    refine ⟨a, b - a, fun i hi => g4 i (Nat.zero_le _) hi, g5, ?_⟩
+    simp only [hbp, Bool.false_eq_true, if_false, spliceLocs]
+    have : allMatches m s 1 (s.length + 1) b (0 + 1) (some b) = [] := by
+      unfold allMatches; simp
+    rw [this, spliceLocs_nil]
+    have e : a + (b - a) = b := by omega
+    rw [e]
+    rw [sub_eq]; simp
+
+/-- A pattern that matches everything (such as `*`): one match, the whole string. -/
+theorem findAll_everything (m : Str → Bool) (s w : Str) (all : Bool) (hall : ∀ u, m u = true) :
+    spliceLocs s w 0 (findAll m s all) = w := by
+  have hff : ∀ pos, pos ≤ s.length → findFrom m s pos = some (pos, s.length) := by
+    intro pos hp
+    unfold findFrom
+    have hn : s.length + 1 - pos = (s.length - pos) + 1 := by omega
+    have hup : upTo pos s.length = pos :: List.range' (pos + 1) (s.length - pos) := by
+      unfold upTo; rw [hn, List.range'_succ]
+    have : (upTo pos s.length).reverse.find? (fun j => m (sub s pos j)) = some s.length := by
+      unfold upTo
+      rw [hn, List.range'_concat, List.reverse_append]
+      simp only [List.reverse_cons, List.reverse_nil, List.nil_append, List.singleton_append, Nat.one_mul,
+        List.find?_cons, hall]
+      congr 1; omega
+    rw [hup, List.findSome?_cons, this]
+    rfl
+  unfold findAll
+  cases hs : s.length with
+  | zero =>
+    have hs' : s = [] := List.eq_nil_of_length_eq_zero hs
+    subst hs'
+    have h0 := hff 0 (Nat.zero_le _)
+    cases all <;> (unfold allMatches; simp [h0]; unfold allMatches; simp [spliceLocs, sub])
+  | succ n =>
+    have h0 := hff 0 (Nat.zero_le _)
+    have hn := hff s.length (Nat.le_refl _)
+    rw [hs] at h0 hn
+    cases all
+    · unfold allMatches; simp [h0]; unfold allMatches; simp [spliceLocs, sub, hs]
+    · unfold allMatches; simp [h0]; unfold allMatches; simp [hs, hn]
+      unfold allMatches; simp [spliceLocs, sub, hs, Nat.not_succ_le_self]
+
+/-! ### the executable specification satisfies the relations, and the relations are functional -/
+
+theorem longestAt_some (m : Str → Bool) (t : Str) (k : Nat) (h : Spec.longestAt m t = some k) :
+    LongestAt m t k := by
+  unfold Spec.longestAt upTo at h
+  obtain ⟨a, b, c, d⟩ := findrev_range'_some _ _ _ _ h
+  exact ⟨a, by omega, c, fun k' h1 h2 => d k' h1 (by omega)⟩
+
+theorem longestAt_none (m : Str → Bool) (t : Str) (h : Spec.longestAt m t = none) : NoMatchAt m t := by
+  unfold Spec.longestAt upTo at h
+  intro k h1 h2
+  exact findrev_range'_none _ _ _ h k h1 (by omega)
+
+theorem noMatch_longest_absurd {m : Str → Bool} {t : Str} {k : Nat} (h1 : NoMatchAt m t) (h2 : LongestAt m t k) :
+    False := by
+  have := h1 k h2.1 h2.2.1
+  rw [h2.2.2.1] at this; cases this
+
+theorem longest_unique {m : Str → Bool} {t : Str} {k1 k2 : Nat} (h1 : LongestAt m t k1) (h2 : LongestAt m t k2) :
+    k1 = k2 := by
+  by_cases h : k1 < k2
+  · have := h1.2.2.2 k2 h h2.2.1; rw [h2.2.2.1] at this; cases this
+  · by_cases h' : k2 < k1
+    · have := h2.2.2.2 k1 h' h1.2.1; rw [h1.2.2.1] at this; cases this
+    · omega
+
+theorem specReplAll_rel (m : Str → Bool) (w : Str) :
+    ∀ (fuel : Nat) (t : Str), t.length ≤ fuel → ReplAll m w t (Spec.replAll m w fuel t) := by
+  intro fuel
+  induction fuel with
+  | zero =>
+    intro t h
+    have : t = [] := List.eq_nil_of_length_eq_zero (by omega)
+    subst this; exact .nil
+  | succ fuel ih =>
+    intro t h
+    cases t with
+    | nil => exact .nil
+    | cons c cs =>
+      simp only [Spec.replAll]
+      cases hl : Spec.longestAt m (c :: cs) with
+      | some k =>
+        have hk := longestAt_some m _ k hl
+        exact .hit _ k _ hk (ih _ (by
+          have h1 := hk.1
+          simp only [List.length_drop, List.length_cons] at h ⊢; omega))
+      | none =>
+        exact .skip c cs _ (longestAt_none m _ hl) (ih cs (by simpa using h))
+
+theorem replAll_functional (m : Str → Bool) (w t r1 r2 : Str) (h1 : ReplAll m w t r1) (h2 : ReplAll m w t r2) :
+    r1 = r2 := by
+  induction h1 generalizing r2 with
+  | nil =>
+    cases h2 with
+    | nil => rfl
+    | hit t k r hk _ => exact absurd hk.2.1 (by have := hk.1; simp; omega)
+  | skip c cs r hn _ ih =>
+    cases h2 with
+    | skip _ _ r' _ hr => rw [ih r' hr]
+    | hit t k r' hk _ => exact (noMatch_longest_absurd hn hk).elim
+  | hit t k r hk _ ih =>
+    cases h2 with
+    | nil => exact absurd hk.2.1 (by have := hk.1; simp; omega)
+    | skip c cs r' hn _ => exact (noMatch_longest_absurd hn hk).elim
+    | hit _ k' r' hk' hr =>
+      have := longest_unique hk hk'
+      subst this
+      rw [ih r' hr]
+
+theorem specReplFirst_rel (m : Str → Bool) (w t : Str) : ReplFirst m w t (Spec.replFirst m w t) := by
+  induction t with
+  | nil =>
+    left
+    refine ⟨fun i hi k h1 h2 => ?_, rfl⟩
+    simp at h2; omega
+  | cons c cs ih =>
+    simp only [Spec.replFirst]
+    cases hl : Spec.longestAt m (c :: cs) with
+    | some k =>
+      right
+      exact ⟨0, k, fun i hi => by omega, by simpa using longestAt_some m _ k hl, by simp⟩
+    | none =>
+      have hn := longestAt_none m _ hl
+      rcases ih with ⟨h1, h2⟩ | ⟨a, k, h1, h2, h3⟩
+      · left
+        refine ⟨fun i hi => ?_, by simp only; rw [h2]⟩
+        cases i with
+        | zero => simpa using hn
+        | succ j => simpa using h1 j (by simpa using hi)
+      · right
+        refine ⟨a + 1, k, fun i hi => ?_, by simpa using h2, by simp only; rw [h3]; simp [Nat.add_right_comm]⟩
+        cases i with
+        | zero => simpa using hn
+        | succ j => simpa using h1 j (by omega)
+
+theorem replFirst_functional (m : Str → Bool) (w t r1 r2 : Str) (h1 : ReplFirst m w t r1) (h2 : ReplFirst m w t r2) :
+    r1 = r2 := by
+  have key : ∀ a k, LongestAt m (t.drop a) k → a ≤ t.length := by
+    intro a k hk
+    have := hk.1; have := hk.2.1
+    simp only [List.length_drop] at this; omega
+  rcases h1 with ⟨a1, b1⟩ | ⟨a1, k1, c1, d1, e1⟩ <;> rcases h2 with ⟨a2, b2⟩ | ⟨a2, k2, c2, d2, e2⟩
+  · rw [b1, b2]
+  · exact (noMatch_longest_absurd (a1 a2 (key _ _ d2)) d2).elim
+  · exact (noMatch_longest_absurd (a2 a1 (key _ _ d1)) d1).elim
+  · have ha : a1 = a2 := by
+      by_cases h : a1 < a2
+      · exact (noMatch_longest_absurd (c2 a1 h) d1).elim
+      · by_cases h' : a2 < a1
+        · exact (noMatch_longest_absurd (c1 a2 h') d2).elim
+        · omega
+    subst ha
+    have := longest_unique d1 d2
+    subst this
+    rw [e1, e2]
+
+/-- The matcher hypothesis about patterns that match the empty string (true of shell patterns
+    without extended operators: such a pattern consists of stars only). -/
+def EmptyAll (m : Str → Bool) : Prop := m [] = true → ∀ u, m u = true
+
+/-- The model's replacement of one string equals the executable specification. -/
+theorem splice_eq_spec (m : Str → Bool) (w s : Str) (all : Bool) (hE : EmptyAll m) :
+    spliceLocs s w 0 (findAll m s all) = Spec.replace m .none all w s := by
+  unfold Spec.replace
+  cases hne : m [] with
+  | true => simp only [if_true]; exact findAll_everything m s w all (hE hne)
+  | false =>
+    simp only [Bool.false_eq_true, if_false]
+    cases all
+    · simp only [Bool.false_eq_true, if_false]
+      exact replFirst_functional m w s _ _ (findAll_replFirst m s w hne) (specReplFirst_rel m w s)
+    · simp only [if_true]
+      exact replAll_functional m w s _ _ (findAll_replAll m s w hne) (specReplAll_rel m w s.length s (Nat.le_refl _))
+
+/-! ## removal and replacement on a set scalar -/
+
+theorem remove_scalar_eq (x : Ext) (cfg : Cfg) (env : Env) (name s ifs arg : Str) (op : ExpOp)
+    (m : Str → Bool) (hifs : ifsOf env = .ok ifs) (hp : Plain name) (hv : env.get name = Var.ofStr s)
+    (hop : isRemove op = true) (hM : x.M arg = .ok m) :
+    paramExp x cfg env { name := name, exp := some (op, arg) }
+      = .ok (removeWith m s (op == .remSmallSuf || op == .remLargeSuf)
+              (op == .remSmallPre || op == .remSmallSuf), env) := by
+  cases op <;> simp [isRemove] at hop <;>
+  simp [paramExp, hifs, hv, effIdx, hp.1, hp.2, isAtStar, Idx.lit, varInd_scalar, removePatternElems, mapMExcept,
+    removePattern, hM, bind, Except.bind, pure, Except.pure, Sl.toList]
+
+theorem repl_scalar_eq (x : Ext) (cfg : Cfg) (env : Env) (name s ifs : Str) (r : Repl)
+    (m : Str → Bool) (hifs : ifsOf env = .ok ifs) (hp : Plain name) (hv : env.get name = Var.ofStr s)
+    (hne : r.orig ≠ []) (hM : x.M r.orig = .ok m) :
+    paramExp x cfg env { name := name, repl := some r }
+      = .ok (spliceLocs s r.with_ 0 (findAll m s r.all), env) := by
+  have : r.orig.isEmpty = false := by cases h : r.orig <;> simp_all
+  simp [paramExp, hifs, hv, effIdx, hp.1, hp.2, isAtStar, Idx.lit, varInd_scalar, replaceElems, this, hM,
+    bind, Except.bind, pure, Except.pure, Sl.toList]
+
+/-! ## unquoted lists: every element is split on its own -/
+
+theorem splitLoop_fields_mono (ifs : Str) (w : WF) (run : Option Str) (val : Str) :
+    ∃ fs, (splitLoop ifs w run val).fields = w.fields ++ fs := by
+  induction val generalizing w run with
+  | nil => cases run <;> exact ⟨[], by simp [splitLoop]⟩
+  | cons r rest ih =>
+    unfold splitLoop
+    by_cases h : ifs.contains r = true
+    · simp only [h, if_true]
+      cases run with
+      | none =>
+        obtain ⟨fs, hfs⟩ := ih w.flush none
+        by_cases hc : w.cur.isEmpty = true
+        · exact ⟨fs, by rw [hfs]; simp [WF.flush, hc]⟩
+        · exact ⟨[w.cur.flatten] ++ fs, by rw [hfs]; simp [WF.flush, hc]⟩
+      | some t =>
+        obtain ⟨fs, hfs⟩ := ih ({ w with cur := w.cur ++ [t] } : WF).flush none
+        refine ⟨[(w.cur ++ [t]).flatten] ++ fs, ?_⟩
+        rw [hfs]; simp [WF.flush]
+    · simp only [h, if_false, Bool.false_eq_true]
+      cases run with
+      | none => exact ih w (some [r])
+      | some t => exact ih w (some (t ++ [r]))
 
 end ShVerif.C21
